@@ -60,7 +60,18 @@ func main() {
 			pprof.StopCPUProfile()
 			f.Close()
 		} else {
-			c.Run(r)
+			// a panic of the library that escapes a check's own guards (on the check's main goroutine) is
+			// reported as a violation of the property being checked - the operation produced no result -
+			// instead of crashing the harness; a panic that is not in library code is a harness fault (exit 2)
+			if pan, msg, site := core.GuardSite(func() { c.Run(r) }); pan {
+				if site == "unknown" {
+					fmt.Fprintln(os.Stderr, "HARNESS-PANIC:", msg)
+					os.Exit(2)
+				}
+				r.Capped.Store(true) // the enumeration was cut short
+				r.Note("aborted_by_library_panic", site)
+				r.Violate(id+"|library-panics-during-the-check|"+site, "the library panics on an input of this check's domain: "+msg, core.Case{Kind: "crash", Args: map[string]string{"site": site}})
+			}
 		}
 		os.Exit(r.Finish())
 	case "c18worker":
